@@ -2596,37 +2596,33 @@ StylesheetExecutionContextDefault::addToXPathCache(
     {
         // OK, we need to clear something out of the cache...
 
-        // Initialize the lowest clock time found so far
-        // with the current clock...
-        ClockType   lowest = addClock;
-
-        // Get some iterators ready to search the cache...
+        // Look for the entry with the lowest clock time.  The search starts
+        // with the first entry, not with the current clock: the clock may not
+        // have advanced since the entries were added (std::clock() is coarse
+        // on some platforms, and on Linux whenever a CPU-time limit or
+        // profiling timer is active), and then no entry is older than "now".
         XPathCacheMapType::iterator     i =
             m_matchPatternCache.begin();
 
         const XPathCacheMapType::iterator   theEnd =
             m_matchPatternCache.end();
+        assert(i != theEnd);
 
-        XPathCacheMapType::iterator     earliest(theEnd);
+        XPathCacheMapType::iterator     earliest(i);
 
-        while(i != theEnd)
+        ClockType   lowest = (*i).second.second;
+
+        for (++i; i != theEnd; ++i)
         {
             const ClockType     current = (*i).second.second;
 
             if (current < lowest)
             {
-                // OK, found a lower clock time, so
-                // update the everything...
                 lowest = current;
 
                 earliest = i;
             }
-            else
-            {
-                ++i;
-            }
         }
-        assert(earliest != theEnd);
 
         // Return the XPath and erase it from the cache.
         m_xsltProcessor->returnXPath((*earliest).second.first);
